@@ -662,7 +662,9 @@ impl Datamodel for RFsmExpressionDatamodel {
                 true
             }
             Err(e) => {
+                // W3C: an 'array' expression that can't be evaluated is an error.execution like every other evaluation error.
                 self.log(&e.to_string());
+                self.internal_error_execution();
                 false
             }
         }
